@@ -548,6 +548,21 @@ func (a *Actor) SubmitSealed(ph *types.WorkObject, o MineOpts) (*Block, error) {
 	return b, nil
 }
 
+// QiTraffic submits 0-4 Qi spends (local, chained on outputs created earlier, conversions).
+func (a *Actor) QiTraffic(t *rapid.T) {
+	if a.ZoneNumber() < params.TimeToStartTx+1 {
+		return
+	}
+	n := rapid.IntRange(0, 4).Draw(t, "nqi")
+	for i := 0; i < n; i++ {
+		if us, _ := a.spendable(); len(us) == 0 {
+			a.submit(t, "quai2qi")
+			continue
+		}
+		a.submit(t, rapid.SampledFrom([]string{"qispend", "qispend", "qispend", "qi2quai", "qixzone"}).Draw(t, "qikind"))
+	}
+}
+
 // ConversionTraffic submits 0-4 conversions of both directions with generated amounts (from
 // dust to far beyond the running average) and slip bounds.
 func (a *Actor) ConversionTraffic(t *rapid.T) {
